@@ -59,6 +59,7 @@ class C14(Prop):
     """Theorems (Props/C14.lean): with one indexing worker the index is a function of the shipped data, and top-1 with a fixed tie-break is a function of the index; repeated real builds (in memory, first on disk, reopened) return the same constant for every query, including deliberately ambiguous ones. The tantivy scheduler and f32 ranking are runtime behaviour outside the model (partial)."""
     id = "C14"
     module = "Anything.Props.C14"
+    needs_db_tables = True
     trusted = ["tantivy 0.19.2: a single indexing thread adds documents in call order; ties are broken by document order",
                "BM25 f32 scoring (not modelled)"]
 
@@ -215,6 +216,7 @@ class C16(Prop):
     """Theorems (Props/C16.lean): a typeable word sequence is parsed as one fact phrase and evaluated by exactly one lookup of exactly that phrase; every shipped constant decodes completely through the model decoder; the ranking step itself (tantivy BM25 in f32) is run exhaustively on all shipped constants and their word permutations, not proved (partial)."""
     id = "C16"
     module = "Anything.Props.C16"
+    needs_db_tables = True
     trusted = ["tantivy n-gram tokenizer, query parser and BM25 ranking (validated by exhaustive execution, not proved)"]
 
     def cases(self, rng, tier):
